@@ -1,6 +1,7 @@
 package govc
 
 import (
+	"math/big"
 	"fmt"
 	"go/types"
 	"math"
@@ -22,6 +23,36 @@ func resultType(sig *types.Signature) types.Type {
 // mathCall models the functions of package math (and a few others) with their IEEE definitions.
 func (u *Unit) mathCall(s *State, f *Frame, x *ssa.Call, key string, args []Value) (Value, bool) {
 	switch key {
+	case "math/bits.LeadingZeros32", "math/bits.LeadingZeros64", "math/bits.TrailingZeros32", "math/bits.Len32":
+		if u.W.IntBV {
+			u.Assumed["math/bits."+key[10:]+" modelled by its definition (bit test chain)"] = true
+			t := u.term(s, args[0])
+			bits := int(bvWidth(t.Sort))
+			rbits, _ := intBits(x.Type().Underlying().(*types.Basic))
+			lit := func(n int) *Term { return bvLit(big.NewInt(int64(n)), rbits) }
+			bit := func(i int) *Term {
+				return Eq(App(fmt.Sprintf("(_ extract %d %d)", i, i), "(_ BitVec 1)", t), Leaf("#b1", "(_ BitVec 1)"))
+			}
+			var r *Term
+			switch key {
+			case "math/bits.TrailingZeros32":
+				r = lit(bits)
+				for i := bits - 1; i >= 0; i-- {
+					r = Ite(bit(i), lit(i), r)
+				}
+			case "math/bits.Len32":
+				r = lit(0)
+				for i := 0; i < bits; i++ {
+					r = Ite(bit(i), lit(i+1), r)
+				}
+			default:
+				r = lit(bits)
+				for i := 0; i < bits; i++ {
+					r = Ite(bit(i), lit(bits-1-i), r)
+				}
+			}
+			return Value{T: r, Ty: x.Type()}, true
+		}
 	case "math.Min", "math.Max", "math.Abs", "math.Sqrt", "math.Floor", "math.Ceil", "math.Trunc", "math.Inf", "math.IsNaN", "math.IsInf", "math.NaN",
 		"math.Float64bits", "math.Float64frombits", "math.Signbit", "math.Copysign", "math.Nextafter",
 		"math.Sin", "math.Cos", "math.Tan", "math.Asin", "math.Acos", "math.Atan", "math.Atan2", "math.Log", "math.Exp", "math.Pow", "math.Mod",
